@@ -27,9 +27,9 @@ EXPLANATION = ("Lean: the parent loop of ProcessExecutor::check as a transition 
                "fairness, closed-form log and result in every final state. Per-file analysis results (frame lists) are inputs. "
                "Outside the model: death inside a frame (F14, proved NOT contained), suppressions inside hasToLog, stale-errno "
                "EAGAIN branch of handleRead, load-average throttling, pipe()/fork() failures.")
-THEOREMS = ["Cppcheck.ProcFaults.terminates", "Cppcheck.ProcFaults.contained", "Cppcheck.ProcFaults.internal_errors_exact",
-            "Cppcheck.ProcFaults.findings_vs_faultfree", "Cppcheck.ProcFaults.exit_status_nonzero_iff",
-            "Cppcheck.ProcFaults.crash_sets_exit_status", "Cppcheck.ProcFaults.faultfree_exit_status",
+THEOREMS = ["Cppcheck.ProcFaults.terminates", "Cppcheck.ProcFaults.contained_partial", "Cppcheck.ProcFaults.internal_errors_exact_partial",
+            "Cppcheck.ProcFaults.findings_vs_faultfree_partial", "Cppcheck.ProcFaults.exit_status_nonzero_iff_partial",
+            "Cppcheck.ProcFaults.crash_sets_exit_status_partial", "Cppcheck.ProcFaults.faultfree_exit_status",
             "Cppcheck.ProcFaults.roundRobin_fair", "Cppcheck.ProcFaults.legacy_exit_status_counterexample",
             "Cppcheck.ProcFaults.midframe_not_contained", "Cppcheck.ProcFaults.contained_needs_frame_boundaries"]
 MODULES = ["Cppcheck.Props.C21"]
@@ -161,26 +161,77 @@ def canon_impl(proj, rc, err):
     return "status=%d log=%s" % (rc, ",".join(sorted(toks)) if toks else "-")
 
 
+def faults(proj, case):
+    """file -> (k, mode, mid) of the workers that really die in this case"""
+    out = {}
+    if "faults" in case:                      # LD_PRELOAD shim harness/c21_faults.c: one spec per worker (fork order = file order)
+        for spec in case["faults"]:
+            i, k, mode = spec[0], spec[1], spec[2]
+            mid = len(spec) > 3 and bool(spec[3])
+            f = proj.files[i]
+            if (k < proj.total(f)) if mid else (k <= proj.total(f)):
+                out[f] = (k, mode, mid)
+    else:                                     # hook VERIF_WORKER_FAULT: one spec, every file whose name contains the substring
+        for f in proj.files:
+            if case["substr"] in f and case["k"] <= proj.total(f):
+                out[f] = (case["k"], case["mode"], False)
+    return out
+
+
+def is_mid(proj, case):
+    return any(m for (_, _, m) in faults(proj, case).values())
+
+
 def model_op(proj, case):
+    fl = faults(proj, case)
     ws = []
     for i, f in enumerate(proj.files):
         fault = "-"
-        if case["substr"] in f and case["k"] <= proj.total(f):
-            fault = "%d,0,%s" % (case["k"], MODES[case["mode"]])
+        if f in fl:
+            k, mode, mid = fl[f]
+            fault = "%d,%d,%s" % (k, 1 if mid else 0, MODES[mode])
         ws.append("%d:%s:%d:%s" % (i, ",".join(proj.frames[f]) or "-", proj.rc[f], fault))
     return "run %d %d %d %s" % (case["jobs"], case.get("seed") or 0, EXITCODE, " ".join(ws))
 
 
 def crashed_files(proj, case):
-    return [f for f in proj.files if case["substr"] in f and case["k"] <= proj.total(f)]
+    return sorted(faults(proj, case))
+
+
+def case_desc(case):
+    if "faults" in case:
+        return "shim[%s]" % ";".join("%d:%d:%s%s" % (x[0], x[1], x[2], ":mid" if len(x) > 3 and x[3] else "") for x in case["faults"])
+    return "%s k=%d %s" % (case["substr"], case["k"], case["mode"])
+
+
+SHIM = {}
+
+
+def shim_path(proj):
+    d = os.path.dirname(proj.dir)
+    if d not in SHIM:
+        so = os.path.join(d, "c21_faults.so")
+        r = subprocess.run(["cc", "-shared", "-fPIC", "-O1", "-o", so, os.path.join(core.VERIF, "harness", "c21_faults.c"), "-ldl"],
+                           stdout=subprocess.PIPE, stderr=subprocess.STDOUT, text=True)
+        if r.returncode != 0:
+            raise core.CheckBroken("C21: fault shim does not compile: " + r.stdout[-800:])
+        SHIM[d] = so
+    return SHIM[d]
 
 
 def run_case(proj, case):
-    env = {"VERIF_WORKER_FAULT": "%s:%d:%s" % (case["substr"], case["k"], case["mode"])}
+    if "faults" in case:
+        env = {"LD_PRELOAD": shim_path(proj),
+               "C21_FAULTS": ";".join("%d:%d:%s%s" % (x[0], x[1], x[2], ":mid" if len(x) > 3 and x[3] else "") for x in case["faults"])}
+    else:
+        env = {"VERIF_WORKER_FAULT": "%s:%d:%s" % (case["substr"], case["k"], case["mode"])}
     if case.get("seed"):
         env["VERIF_SCHED_SEED"] = str(case["seed"])
     rc, out, err, dt = proj.run(case["jobs"], proj.files, env)
     return rc, err, dt
+
+
+ABORT_MARK = "#### ThreadExecutor::handleRead("
 
 
 def p_impl(proj, case, rc, err):
@@ -188,7 +239,13 @@ def p_impl(proj, case, rc, err):
     bad = []
     if rc is None:
         return [("cppcheck did not terminate within %d s" % TIMEOUT, "no-termination")]
-    crashed = crashed_files(proj, case)
+    fl = faults(proj, case)
+    crashed = sorted(fl)
+    if ABORT_MARK in err and rc == 1 and any(m for (_, _, m) in fl.values()):
+        # F14: a worker died INSIDE a pipe message, the parent left through std::exit(EXIT_FAILURE)
+        return [("a worker died inside a pipe message (%s): the parent exits with status 1 (`%s`), no internal error names the file, the "
+                 "findings of the other files are not reported" % (case_desc(case), [l for l in err.split("\n") if ABORT_MARK in l][0][:120]),
+                 "midframe-death-aborts-parent")]
     lines = [l for l in err.split("\n") if l.strip()]
     internal = [l for l in lines if ":cppcheckError:" in l]
     for f in crashed:
@@ -212,7 +269,7 @@ def p_impl(proj, case, rc, err):
     want = EXITCODE if (crashed or any(proj.rc[f] for f in proj.files)) else 0
     if rc != want:
         key = "exit-status"
-        if rc == 0 and crashed and all(case["k"] == proj.total(f) for f in crashed) and not any(proj.rc[f] for f in proj.files):
+        if rc == 0 and crashed and all(fl[f][0] == proj.total(f) for f in crashed) and not any(proj.rc[f] for f in proj.files):
             key = "death-after-childend"
         bad.append(("exit status %d, expected %d (crashed: %s)" % (rc, want, crashed), key))
     return bad
@@ -282,9 +339,49 @@ def enumerate_cases(ctx, projs, thorough):
         for c in rng.sample(pairs, 10):
             c["seed"] = rng.randrange(1, 1000)
             cases.append(c)
-        for k in (0, 3):
-            cases.append(dict(project="proj4", substr=".c", k=k, mode="segv", jobs=3, seed=rng.randrange(1, 1000)))
+        cases.append(dict(project="proj4", substr=".c", k=0, mode="segv", jobs=2, seed=rng.randrange(1, 1000)))
+        cases.append(dict(project="proj4", substr=".c", k=3, mode="segv", jobs=3, seed=rng.randrange(1, 1000)))
+    # simultaneous crashers with DIFFERENT crash points (LD_PRELOAD shim, one spec per worker)
+    tot = [p4.total(f) for f in p4.files]
+    mixed = []
+    for a in range(4):
+        for b in range(4):
+            if a == b:
+                continue
+            # A before its first message / between messages, B after CHILD_END / before CHILD_END
+            for ka, kb in ((0, tot[b]), (1, tot[b] - 1), (tot[a] - 1, 0), (tot[a], 1)):
+                mixed.append(dict(project="proj4", faults=[[a, ka, "segv"], [b, kb, "exit"]]))
+    mixed.append(dict(project="proj4", faults=[[0, 0, "segv"], [1, tot[1], "exit"], [2, 1, "abort"], [3, 2, "segv"]]))
+    mixed.append(dict(project="clean2", faults=[[0, 0, "segv"], [1, c2.total(c2.files[1]), "exit"]]))
+    chosen = mixed if thorough else rng.sample(mixed[:-2], 10) + mixed[-2:]
+    for c in chosen:
+        for jobs in ((2, 3) if thorough else (rng.choice((2, 3)),)):
+            cases.append(dict(c, jobs=jobs, seed=rng.choice([None, rng.randrange(1, 1000)])))
     return cases
+
+
+def shim_vs_hook(ctx, res, projs, thorough):
+    """the shim is a second implementation of the hook's fault: for single specs both must give the same run"""
+    rng = ctx.rng
+    p4 = projs["proj4"]
+    pts = [(i, k) for i, f in enumerate(p4.files) for k in range(0, p4.total(f) + 1)]
+    bad = []
+    for (i, k) in (pts if thorough else rng.sample(pts, 5)):
+        mode = rng.choice(["segv", "exit"])
+        f = p4.files[i]
+        r1 = run_case(p4, dict(substr=f.split("_")[0], k=k, mode=mode, jobs=2))
+        r2 = run_case(p4, dict(faults=[[i, k, mode]], jobs=2))
+        a, b = canon_impl(p4, r1[0], r1[1]), canon_impl(p4, r2[0], r2[1])
+        res.count("shim-vs-hook-runs")
+        if a != b:
+            bad.append((f, k, mode, a, b))
+    res.oblig("shim-agrees-with-hook", not bad, "correspondence", "" if not bad else "first: %s" % (bad[0],))
+
+
+def f14_cases(projs):
+    """deaths INSIDE a pipe message (outside the claimed statement): replayed on the real binary through the shim"""
+    return [dict(project="proj4", faults=[[0, 1, "segv", 1]], jobs=2, seed=None),
+            dict(project="proj4", faults=[[3, 0, "exit", 1]], jobs=3, seed=None)]
 
 
 def load_corpus():
@@ -295,6 +392,9 @@ def load_corpus():
 def resolve_k(proj, case):
     """corpus cases may give k symbolically ("total" = after CHILD_END of the first matching file)"""
     c = dict(case)
+    if "faults" in c:
+        c["faults"] = [[x[0], proj.total(proj.files[x[0]]) if x[1] == "total" else x[1]] + list(x[2:]) for x in c["faults"]]
+        return c
     if c["k"] == "total":
         f = [f for f in proj.files if c["substr"] in f][0]
         c["k"] = proj.total(f)
@@ -315,23 +415,35 @@ def explore(ctx, res, drv, projs, cases, name):
         m = re.match(r"^sim final=(\d) aborted=(\d) (status=\d+ log=\S+) \| exp (status=\d+ log=\S+) mid=(\d)$", o)
         if not m:
             raise core.CheckBroken("C21 driver line: " + o)
+        if m.group(5) == "1":
+            # death inside a frame (F14): no closed form; every final state of the model is `aborted` with exit status 1
+            if m.group(1) != "1" or m.group(2) != "1":
+                selfbad.append((c, o))
+            impl.append("status=%s aborted=%d" % (rcode, 1 if ABORT_MARK in err else 0))
+            model.append(m.group(3).split(" ")[0] + " aborted=1")
+            continue
         if m.group(1) != "1" or m.group(2) != "0" or m.group(3) != m.group(4):
             selfbad.append((c, o))
         impl.append(canon_impl(projs[c["project"]], rcode, err))
         model.append(m.group(4))
-    desc = ["%s %s k=%d %s -j%d seed=%s" % (c["project"], c["substr"], c["k"], c["mode"], c["jobs"], c.get("seed")) for c in cases]
+    desc = ["%s %s -j%d seed=%s" % (c["project"], case_desc(c), c["jobs"], c.get("seed")) for c in cases]
     mism = []
     for i, c in enumerate(cases):
         proj = projs[c["project"]]
         cr = crashed_files(proj, c)
         samp = dict(tie=name, op=desc[i], impl=impl[i], model=model[i]) if i % max(1, len(cases) // 4) == 0 else None
         res.case(name + "|" + desc[i], bool(cr), samp)
-        res.count("mode:" + c["mode"]); res.count("jobs:%d" % c["jobs"]); res.count("crashers:%d" % len(cr))
+        fl = faults(proj, c)
+        res.count("mechanism:" + ("shim" if "faults" in c else "hook")); res.count("jobs:%d" % c["jobs"]); res.count("crashers:%d" % len(cr))
         res.count("seeded" if c.get("seed") else "unseeded")
+        if len(set(k for (k, _, _) in fl.values())) > 1:
+            res.count("crashers-with-different-k")
         for f in cr:
             t = proj.total(f)
-            res.count("k:" + ("0(before first message)" if c["k"] == 0 else "total(after CHILD_END)" if c["k"] == t else
-                              "total-1(before CHILD_END)" if c["k"] == t - 1 else "between messages"))
+            k, mode, mid = fl[f]
+            res.count("mode:" + mode)
+            res.count("k:" + ("inside a message (F14)" if mid else "0(before first message)" if k == 0 else "total(after CHILD_END)" if k == t else
+                              "total-1(before CHILD_END)" if k == t - 1 else "between messages"))
         if impl[i] != model[i]:
             mism.append(i)
     res.traces_validated += len(cases) - len(mism)
@@ -343,7 +455,7 @@ def explore(ctx, res, drv, projs, cases, name):
     for c, (rcode, err, dt) in zip(cases, outs):
         for what, key in p_impl(projs[c["project"]], c, rcode, err):
             nviol += 1
-            res.violation("%s k=%s mode=%s -j%d seed=%s on %s: %s" % (c["substr"], c["k"], c["mode"], c["jobs"], c.get("seed"), c["project"], what),
+            res.violation("%s -j%d seed=%s on %s: %s" % (case_desc(c), c["jobs"], c.get("seed"), c["project"], what),
                           dict(case=c, observed_status=rcode, observed_stderr=err[-2000:], files=PROJECTS[c["project"]],
                                replay_cmd="./check.py C21 --replay <this file>"), concrete=True, key=key)
     res.extra.setdefault("slowest_run_s", 0)
@@ -367,6 +479,8 @@ def run(ctx, res):
         explore(ctx, res, drv, projs, corpus, "corpus")
     cases = enumerate_cases(ctx, projs, thorough)
     mism, nviol = explore(ctx, res, drv, projs, cases, "worker-faults")
+    shim_vs_hook(ctx, res, projs, thorough)
+    explore(ctx, res, drv, projs, f14_cases(projs), "midframe-F14")
     res.extra["exhaustive"] = dict(dimension="crash point k in 0..messages+1 for every file"
                                    + (" x {segv, exit} x jobs {2,3} x scheduling seeds {none,1,2}; all pairs; all files" if thorough else ""), value=True)
     # an obligation broke but no concrete failing input yet: widen to the thorough enumeration with more seeds
